@@ -83,6 +83,29 @@ def run(ctx):
                 res.violation("EVENTS", FN, f"links={len(links)},shape={shape},stale-index-on-outside-vertex={stale is not None}",
                               f"links {links}, outside vertex carries stale index {stale}, callbacks {'given' if cbs else 'None'}: {why}", replay=replay(links, stale, cbs))
     res.rule("EVENTS", n)
+    # ---- universe sizes other than two: ids 0..n-1 in universe order, one node each; the empty universe gives an empty network
+    for members in ([], ["c"], ["b", "c", "a"], ["a", "b", "c", "d"]):
+        try:
+            h.reset()
+            V = {x: h.new("Vertex", x) for x in "abcd"}
+            l1 = h.new("DirectedEdge", "L0", V["c"], V["a"])
+            U = h.new("Universe", "U", vertices=Seq([V[x] for x in members], "list"))
+            h.settle()
+            rec.events, rec.nodes = [], []
+            out = h.call(fn, U, Callback("rvfunc", lambda I, k, a, kw: mkstr([SAtom("Label", a[0])])), None)
+        except Unknown as u:
+            res.ob(False)
+            res.undecide(f"make_pyvis_net universe of {len(members)}: {u}")
+            continue
+        n += 1
+        nodes = [e for e in rec.events if e[0] == "add_node"]
+        labs = [e[2].parts[0].payload[0].name if isinstance(e[2], SymStr) and hasattr(e[2].parts[0], "payload") else None for e in nodes]
+        edges = [(e[1], e[2]) for e in rec.events if e[0] == "add_edge"]
+        want_edges = [(members.index("c"), members.index("a"))] if "a" in members and "c" in members else []
+        ok = out.kind == "return" and [e[1] for e in nodes] == list(range(len(members))) and labs == members and edges == want_edges
+        res.ob(ok, sig=("size", tuple(members)))
+        if not ok:
+            res.violation("EVENTS", FN, f"members={len(members)}", f"universe {members} with a link c->a: node ids {[e[1] for e in nodes]} labelled {labs}, edges {edges}; expected ids {list(range(len(members)))} labelled {members}, edges {want_edges}")
     # pyvis_render_customizable forwards to make_pyvis_net (FWD)
     fwd(ctx, h, rec, res)
     from sa import eff
